@@ -39,13 +39,18 @@ const (
 	fCloseMidBody
 	fStall
 	fContinue100
+	fSilentCloseThenStall
 	nFaults
 )
 
-var faultNames = []string{"ok", "ok+Connection:close", "ok-then-silent-close", "close-before-first-byte", "close-mid-header", "close-mid-body", "stall-past-read-timeout", "100-continue-then-ok"}
+var faultNames = []string{"ok", "ok+Connection:close", "ok-then-silent-close", "close-before-first-byte", "close-mid-header", "close-mid-body", "stall-past-read-timeout", "100-continue-then-ok", "silent-180ms-then-close;stall-when-repeated"}
 
 const (
 	readTimeout = 40 * time.Millisecond
+	reqTimeout  = 300 * time.Millisecond // whole-request timeout of calls planned with ReqTimeout
+	silentTime  = 180 * time.Millisecond // fSilentCloseThenStall: silent for this long, then closes without a byte
+	tightSlack  = 100 * time.Millisecond // used for the request-timeout verdict, only while the heartbeat is below quietBeat
+	quietBeat   = 20 * time.Millisecond
 	stallTime   = 130 * time.Millisecond
 	slack       = 2 * time.Second
 	// Timing verdicts (a call with a read timeout returns within timeout + slack; all calls return
@@ -58,14 +63,15 @@ const (
 
 // ReqPlan is one planned call.
 type ReqPlan struct {
-	ID       string `json:"id"`
-	Method   string `json:"method"`
-	Fault    int    `json:"fault"`
-	FaultN   string `json:"fault_name"`
-	Timeout  bool   `json:"read_timeout_40ms"`
-	Ctx      string `json:"ctx"` // "live", "cancelled-before", "cancelled-during"
-	PreDelay int    `json:"pre_delay_us"`
-	Yields   int    `json:"yields"`
+	ID         string `json:"id"`
+	Method     string `json:"method"`
+	Fault      int    `json:"fault"`
+	FaultN     string `json:"fault_name"`
+	Timeout    bool   `json:"read_timeout_40ms"`
+	ReqTimeout bool   `json:"request_timeout_300ms"`
+	Ctx        string `json:"ctx"` // "live", "cancelled-before", "cancelled-during"
+	PreDelay   int    `json:"pre_delay_us"`
+	Yields     int    `json:"yields"`
 }
 
 type Plan struct {
@@ -293,6 +299,22 @@ func (w *world) peer(connID int, c net.Conn) {
 			c.Write([]byte("HTTP/1.1 200 OK\r\nContent-Length: 50\r\n\r\nid=" + id)) //nolint:errcheck
 			done()
 			return
+		case fSilentCloseThenStall:
+			w.mu.Lock()
+			nth := w.recv[id]
+			w.mu.Unlock()
+			if nth <= 1 {
+				// first receipt: say nothing for a while, then close before the first byte (a stale pooled
+				// connection: retryable requests are sent again on another connection)
+				time.Sleep(silentTime)
+				done()
+				return
+			}
+			// repeated receipt: stall until the client gives up and closes
+			c.SetReadDeadline(time.Now().Add(5 * time.Second)) //nolint:errcheck
+			c.Read(tmp)                                        //nolint:errcheck
+			done()
+			return
 		case fStall:
 			time.Sleep(stallTime)
 			w.mu.Lock()
@@ -375,8 +397,15 @@ func runPlan(p *Plan) (string, *world) {
 				if r.Method != "GET" {
 					req.SetBodyString("payload-" + r.ID)
 				}
+				var ropts []config.RequestOption
 				if r.Timeout {
-					req.SetOptions(config.WithReadTimeout(readTimeout))
+					ropts = append(ropts, config.WithReadTimeout(readTimeout))
+				}
+				if r.ReqTimeout {
+					ropts = append(ropts, config.WithRequestTimeout(reqTimeout))
+				}
+				if len(ropts) > 0 {
+					req.SetOptions(ropts...)
 				}
 				ctx, cancel := context.WithCancel(context.Background())
 				switch r.Ctx {
@@ -427,6 +456,15 @@ func runPlan(p *Plan) (string, *world) {
 		}
 		if timingOK && r.Timeout && res.elapsed > readTimeout+slack {
 			return fmt.Sprintf("call id=%s with a %v read timeout returned after %v", res.id, readTimeout, res.elapsed), w
+		}
+		if timingOK && r.ReqTimeout && res.elapsed > reqTimeout+slack {
+			return fmt.Sprintf("call id=%s with a %v request timeout returned after %v", res.id, reqTimeout, res.elapsed), w
+		}
+		// the request timeout covers the whole call, repeated attempts included: with a quiet scheduler
+		// (heartbeat never more than quietBeat late) the slack is tight enough to notice a budget that
+		// restarts with every attempt (silent 180 ms + a fresh 300 ms = 480 ms)
+		if r.ReqTimeout && r.Ctx == "live" && late() <= quietBeat && res.elapsed > reqTimeout+tightSlack {
+			return fmt.Sprintf("call id=%s with a %v request timeout returned after %v although the scheduler was never more than %v late: the timeout does not bound the whole call (attempts repeated after a stale pooled connection included)", res.id, reqTimeout, res.elapsed, late()), w
 		}
 		if r.Ctx == "cancelled-before" && res.err == nil {
 			// allowed: nothing in the statement forbids completing; hertz returns ctx.Err()
@@ -545,6 +583,10 @@ func genPlan(t *rapid.T) *Plan {
 			}
 			r.FaultN = faultNames[r.Fault]
 			r.Timeout = r.Fault == fStall || rapid.IntRange(0, 3).Draw(t, "timeout") == 0
+			r.ReqTimeout = rapid.IntRange(0, 4).Draw(t, "reqTimeout") == 0
+			if r.Fault == fSilentCloseThenStall {
+				r.Timeout, r.ReqTimeout = false, true
+			}
 			r.Ctx = rapid.SampledFrom([]string{"live", "live", "live", "live", "cancelled-before", "cancelled-during"}).Draw(t, "ctx")
 			r.PreDelay = rapid.SampledFrom([]int{0, 0, 50, 500, 3000}).Draw(t, "preDelay")
 			rs = append(rs, r)
